@@ -11,5 +11,7 @@ Lemma kalman_constants_tie :
   /\ KALMAN_AVG_BUF_LEN = 8 /\ KALMAN_STABLE_AFTER = 8 /\ KALMAN_INIT_FREQ_UNC = 100
   /\ KALMAN_CHI_CONSTS = " const P: f64 = 0.3275911; const A1: f64 = 0.254829592; const A2: f64 = -0.284496736; const A3: f64 = 1.421413741; const A4: f64 = -1.453152027; const A5: f64 = 1.061405429; "%string
   /\ (KALMAN_SQRT_SITES_SOURCE, KALMAN_INVERSE_SITES_SOURCE, KALMAN_DIV_SITES_SOURCE,
-      KALMAN_DIV_SITES_MATRIX, KALMAN_SQRT_SITES_MOD) = (6, 3, 26, 3, 5).
+      KALMAN_DIV_SITES_MATRIX, KALMAN_SQRT_SITES_MOD) = (6, 3, 26, 3, 5)
+  /\ (TT_FROM_SECONDS_ROUNDS + TT_FROM_SECONDS_TRUNCS, TT_ABS_SATURATES + TT_ABS_WRAPS,
+      TT_POLL_INC_SATURATES + TT_POLL_INC_WRAPS, TT_POLL_DEC_SATURATES + TT_POLL_DEC_WRAPS) = (1, 1, 1, 1).
 Proof. repeat split. Qed.
